@@ -2,6 +2,8 @@ SPECIFICATION MCSpec
 CONSTANTS MaxOffers = 3
           MaxRankMC = 2
           MaxDerived = 1
-INVARIANTS TypeOK SetOnly RoundTrip MergedIsUnion BytesShape UnionLaw
-PROPERTIES InputsUntouched OfferTellsChange
+          MaxSnaps = 1
+          SnapOf = {1}
+INVARIANTS TypeOK SetOnly RoundTrip MergedIsUnion BytesShape UnionLaw SnapOK
+PROPERTIES InputsUntouched OfferTellsChange SnapFrozen
 CHECK_DEADLOCK FALSE
